@@ -1,0 +1,16 @@
+//go:build verif
+
+// Contracts for package nextstrain, checked by /verif (govc). Comments only.
+
+package nextstrain
+
+//@ func (*io/nextstrain.Parser).Parse
+//@   requires p != nil
+//@   allocates Nextstrain, iface
+//@   assigns nothing
+//@   ensures [document_or_error] err == nil ==> ns != nil
+
+//@ func (*io/nextstrain.Nextstrain).FirstTree
+//@   flag treeop
+//@   requires n != nil
+//@   ensures [always_a_tree_object] t != nil
